@@ -8,6 +8,7 @@ REQUIRED = ["CifModel.C17_dup_ustrings_balanced", "CifModel.C17_clone_balanced",
             "CifModel.C17_cex_packet_create_undefined", "CifModel.C17_deserialize_balanced",
             "CifModel.C17_map_set_balanced", "CifModel.C17_cex_map_set_corrupt", "CifModel.C17_map_remove_balanced",
             "CifModel.C17_clone_table_balanced", "CifModel.C17_cex_clone_table_corrupt", "CifModel.C17_map_fault_reached_iff",
+            "CifModel.C17_ladder_reentry", "CifModel.C17_deserialize_table_balanced", "CifModel.C17_get_names_norm_balanced",
             "CifModel.C17_atomic_under_fault", "CifModel.C17_abs_unchanged", "CifModel.C17_close_fault_is_abort"]
 GEN = ["ErrCodes", "Schema", "Uthash"]
 FAMILIES = ["ladder", "oom", "storefault"]
@@ -42,8 +43,9 @@ PARTIAL = [
     "about the model variant that family `ladder` compares with the CURRENT sources (/repo 3148ec3): dup_ustrings, cif_value_clone "
     "(scalars, text, numbers, nested lists; tables only at the top: C17_clone_table_balanced), cif_value_insert_element_at, "
     "cif_value_set_element_at (after f1b092b), cif_value_copy_char, cif_loop_get_names without normalisation (after 0850ab1), "
+    "cif_loop_get_names_internal with normalisation (ASCII names; after c161ded), "
     "cif_packet_create for ASCII names below uthash's first bucket expansion (after 07fe35a), cif_value_deserialize of list blobs "
-    "without numbers / tables, cif_map_set_item = cif_value_set_item_by_key / cif_packet_set_item and cif_value_clone_table with "
+    "(numbers included, after fe019d6) and of table blobs with table-free entry values (after 7285a53 / 2b403f6), cif_map_set_item = cif_value_set_item_by_key / cif_packet_set_item and cif_value_clone_table with "
     "uthash's table, bucket-array and expansion requests (after 7285a53), cif_map_retrieve_item with removal. Four of them "
     "(C17_get_names_balanced, C17_packet_create_balanced, C17_map_set_balanced, C17_clone_table_balanced) are stated for the "
     "`fixed = true` variant of a two-variant model: that variant was written as the PROPOSED repair and has been the code since the "
@@ -59,11 +61,12 @@ PARTIAL = [
     "correspondence runs (the executors keep using and then release every object after the faulted call, under ASan)",
     "re-entry after a faulted ladder call: the conclusions `Balanced st.evs (…)` and 'no live id beyond the request counter' of the "
     "from-any-state theorems (set_element_at, copy_char, map set / remove) are exactly their own hypotheses for the resulting map / "
-    "value, so a further call (with its own single fault) may follow - C17_ladder_reentry states this for two consecutive faulted "
-    "cif_map_set_item calls; the ladders that start from the empty window (dup, clone, insert, packet_create, deserialize, "
+    "value, so a further call (with its own single fault) may follow - C17_ladder_reentry proves it for every sequence of "
+    "cif_map_set_item / removal calls on one map, each with its own fault position; the ladders that start from the empty window (dup, clone, insert, packet_create, deserialize, "
     "get_names, clone of a table) create their result and have nothing to re-enter. There is no theorem about two faults inside ONE call",
-    "not covered by a ladder theorem (fault-enumeration run only): tables nested inside list elements or table entries, numbers inside "
-    "deserialised blobs, cif_loop_get_names_internal with normalisation, parse_loop_header, every other allocation site",
+    "not covered by a ladder theorem (fault-enumeration run only): tables nested inside list elements or table entries (clone and "
+    "deserialise), non-ASCII names (whose normalisation may re-allocate), parse_loop_header, cif_loop_get_packets' name set, every "
+    "other allocation site",
     "all 64 classes of allocation-failure defects found by the exhaustive census have been repaired in /repo (18 fix: commits, "
     "notes/agents/gK.md); known_findings.d/C17.json is empty, their example requests are regression lines in corpus/oom/closed.req",
 ]
